@@ -165,6 +165,20 @@ def run(tier, seed, pid=PID, flavour='plain', n=None, maxpop=2000):
                 rt = 'FREQ=HOURLY;UNTIL=%s' % ue.strftime('%Y%m%dT%H%M%SZ')
                 c = fam(nf, (loc.year, loc.month, loc.day, loc.hour, loc.minute, loc.second), rt, zn); c['until'] = rrgen.inst((ue.year, ue.month, ue.day, ue.hour, ue.minute, ue.second)); c['maxpop'] = 70
                 cases.append(c); nf += 1
+    # minutely (and hourly) rules of several seconds (minutes) per step with an UNTIL between two of them inside a step the rule visits
+    for _ in range(300 if tier == 'thorough' else 40):
+        d0 = D.datetime(rnd.choice([2000, 2021]), rnd.randint(1, 12), rnd.randint(1, 28), rnd.randint(0, 23), rnd.randint(0, 59), 0)
+        if rnd.random() < 0.6:
+            secs_ = sorted(rnd.sample(range(60), rnd.randint(2, 4))); iv = rnd.choice([1, 1, 7, 30]); k = rnd.choice([0, 1, 5, 29, 100, 700])
+            u = d0 + D.timedelta(minutes=iv * k, seconds=rnd.randint(secs_[0], secs_[-1] - 1) if secs_[-1] > secs_[0] else 0)
+            rt = 'FREQ=MINUTELY;INTERVAL=%d;BYSECOND=%s;UNTIL=%s' % (iv, ','.join(map(str, secs_)), u.strftime('%Y%m%dT%H%M%SZ')); ds = (d0.year, d0.month, d0.day, d0.hour, d0.minute, secs_[0])
+        else:
+            mins = sorted(rnd.sample(range(60), rnd.randint(2, 4))); k = rnd.choice([0, 1, 5, 23, 100])
+            base = d0.replace(minute=0)
+            u = base + D.timedelta(hours=k, minutes=rnd.randint(mins[0], mins[-1] - 1), seconds=30)
+            rt = 'FREQ=HOURLY;BYMINUTE=%s;UNTIL=%s' % (','.join(map(str, mins)), u.strftime('%Y%m%dT%H%M%SZ')); ds = (base.year, base.month, base.day, base.hour, mins[0], 0)
+        c = fam(nf, ds, rt); c['until'] = rrgen.inst((u.year, u.month, u.day, u.hour, u.minute, u.second)); c['maxpop'] = 2200
+        cases.append(c); nf += 1
     nsl = vlib.NCPU; per = -(-len(cases) // nsl)
     env_asan = flavour == 'asan'
     if env_asan:
